@@ -59,6 +59,9 @@ def call(f) -> Out:
         return Out(MISS)
     except OverflowError as ex:
         return Out(OVF, detail=str(ex))
+    except MemoryError:
+        # resource exhaustion on astronomically large exact integers: same class as overflow
+        return Out(OVF, detail="MemoryError")
     except RecursionError:
         raise
     except Exception as ex:  # noqa: classification is the point
